@@ -15,8 +15,17 @@ ob("c14_Hdupdd", "C14", entry="h_c14_Hdupdd", enforce="Hdupdd", mode="bounded", 
    unwind=4, **DD)
 
 prop("C14",
-     residual="'no byte changes' for whole SD/GR/AN programs; write-open/close without edits leaves content identical",
-     assumptions=[])
+     residual="'no byte changes' for whole SD/GR/AN programs and histories; write-open/close without edits leaves content identical "
+              "(Hclose/HIupdate_version path); HXPwrite/HLPwrite/HCPwrite/HMCPwrite under the Hstartaccess invariant (reached only "
+              "through Hwrite, which refuses access records without DFACC_WRITE); VSfdefine/VSsetfields/VSsetattr/Vsetattr, AN and "
+              "GR creators, SDsetattr/SDsetdimname/SDwritedata; a second Hopen of the same path with write access (refcount path)",
+     assumptions=["A-C14-INV: no access record of a read-only file carries DFACC_WRITE (established by Hstartaccess, obligation Hstartaccess)",
+                  "A-C14-IDS: file/access/vgroup/vdata handles are fixed pairwise distinct representatives (handles are opaque: the code "
+                  "under test passes them on, the atom stubs compare them for equality only)",
+                  "A-C14-RDONLY: a read-only file record has access == DFACC_READ (what Hopen stores for DFACC_READ)",
+                  "A-C14-ATTACH-R: groups / vdatas of a read-only file are attached 'r' (follows from the Vattach gate; for vdatas it "
+                  "presupposes the VSattach gate that is missing today)",
+                  "A-TBBT: tbbt.c trees are trusted finite maps"])
 
 # ----------------------------------------------------------------------------- hblocks.c
 # unwind=1: every loop of these functions lies BEHIND the gate; the unwinding assertions (always on) prove that no loop
